@@ -298,3 +298,258 @@ func ensureConds(m *Model) {
 		m.Conds = append(m.Conds, Condition{Name: "c2", Params: []Param{{Name: "y", Type: "string"}}, Expr: "y == \"a\""})
 	}
 }
+
+// InflateDSL scales a transformer-profile model up along ONE drawn dimension (counts from ScaleCounts) and returns the
+// name of the dimension. In the dsl profile (jsonOnly false) the result stays DSL-expressible: operands are only added
+// behind the first one and consist of leaves, nesting is added around a non-first operand. In the json profile a
+// direct assignment may end up deep inside the added nesting, on or off the leading path. Dimensions:
+//
+//	operands     one operator (or a new one around a leaf) gets N more leaf operands
+//	depth        N more operator levels around one operand, kinds alternating, the old operand innermost
+//	relations    N more relations in one type (names sorting before, between and behind the existing ones)
+//	types        N more types
+//	restrictions N more type restrictions on one direct assignment
+//	conditions   N more conditions
+//	params       N more parameters on one condition
+//	expr         a condition body of N clauses (well over 64 tokens), sometimes with a lone '{' in the middle
+//	name-length  one type and one relation get names of 50..255 characters
+func InflateDSL(t *rapid.T, m *Model, jsonOnly bool) string {
+	dims := []string{"operands", "depth", "relations", "types", "restrictions", "conditions", "params", "expr", "name-length"}
+	dim := rapid.SampledFrom(dims).Draw(t, "scaleDim")
+	n := rapid.SampledFrom(ScaleCounts).Draw(t, "scaleN")
+	usedT := map[string]bool{}
+	for _, x := range m.Types {
+		usedT[x.Name] = true
+	}
+	var withRels []int
+	for i := range m.Types {
+		if len(m.Types[i].Rels) > 0 {
+			withRels = append(withRels, i)
+		}
+	}
+	pickRel := func() (*TypeDef, *Relation) {
+		if len(withRels) == 0 {
+			m.Types = append(m.Types, TypeDef{Name: "scaled", Rels: []Relation{{Name: "r", Rw: &Rewrite{Kind: Computed, Rel: "r0"}}}})
+			usedT["scaled"] = true
+			withRels = append(withRels, len(m.Types)-1)
+		}
+		td := &m.Types[withRels[rapid.IntRange(0, len(withRels)-1).Draw(t, "scaleType")]]
+		return td, &td.Rels[rapid.IntRange(0, len(td.Rels)-1).Draw(t, "scaleRel")]
+	}
+	leaf := func(i int) *Rewrite {
+		if i%3 == 2 {
+			return &Rewrite{Kind: TTU, Rel: fmt.Sprintf("s%02d", i), Tupleset: "parent"}
+		}
+		return &Rewrite{Kind: Computed, Rel: fmt.Sprintf("s%02d", i)}
+	}
+	switch dim {
+	case "operands":
+		_, r := pickRel()
+		// the operator to widen: the root if it is a union/intersection, else a new union around the old rewrite
+		op := r.Rw
+		if op.Kind != Union && op.Kind != Intersection {
+			kind := rapid.SampledFrom([]string{Union, Intersection}).Draw(t, "scaleOpKind")
+			op = &Rewrite{Kind: kind, Kids: []*Rewrite{r.Rw}}
+			r.Rw = op
+		}
+		// sometimes the wide group is a nested, non-first operand: `x or (s00 or s01 or ...)`
+		if rapid.IntRange(0, 2).Draw(t, "scaleNestedWide") == 0 {
+			inner := &Rewrite{Kind: rapid.SampledFrom([]string{Union, Intersection}).Draw(t, "scaleInnerKind")}
+			op.Kids = append(op.Kids, inner)
+			op = inner
+		}
+		for i := 0; i < n; i++ {
+			op.Kids = append(op.Kids, leaf(i))
+		}
+	case "depth":
+		_, r := pickRel()
+		n = rapid.SampledFrom([]int{4, 5, 7, 8, 9, 10, 12, 15, 16, 17}).Draw(t, "scaleDepthN")
+		kinds := []string{Union, Intersection, Difference}
+		// innermost: the old rewrite (json profile) or a leaf / a group of leaves (dsl profile: no direct assignment off
+		// the first position)
+		var inner *Rewrite
+		if jsonOnly {
+			inner = r.Rw
+			if rapid.IntRange(0, 2).Draw(t, "scaleDeepThis") == 0 {
+				inner = &Rewrite{Kind: This}
+			}
+		} else {
+			inner = &Rewrite{Kind: Union, Kids: []*Rewrite{leaf(0), leaf(1)}}
+		}
+		leftNested := jsonOnly && rapid.Bool().Draw(t, "scaleLeftNested") // the old rewrite stays on the leading path
+		cur := inner
+		for i := 0; i < n; i++ {
+			k := kinds[(i+rapid.IntRange(0, 2).Draw(t, "scaleKind"))%3]
+			if leftNested {
+				cur = &Rewrite{Kind: k, Kids: []*Rewrite{cur, leaf(i + 2)}}
+			} else {
+				cur = &Rewrite{Kind: k, Kids: []*Rewrite{leaf(i + 2), cur}}
+			}
+		}
+		if jsonOnly {
+			r.Rw = cur
+			if len(r.Restr) == 0 && cur.CountThis() > 0 {
+				r.Restr = []Restriction{{Type: "user"}}
+			}
+		} else {
+			// behind the first operand of the definition
+			if r.Rw.Kind == Union || r.Rw.Kind == Intersection {
+				r.Rw.Kids = append(r.Rw.Kids, cur)
+			} else {
+				r.Rw = &Rewrite{Kind: Union, Kids: []*Rewrite{r.Rw, cur}}
+			}
+		}
+	case "relations":
+		td, _ := pickRel()
+		usedR := map[string]bool{}
+		for _, r := range td.Rels {
+			usedR[r.Name] = true
+		}
+		pf := rapid.SampledFrom([]string{"a", "m", "zz", "A"}).Draw(t, "scaleRelPrefix")
+		for i := 0; i < n; i++ {
+			nm := fmt.Sprintf("%s%02d", pf, (i*7)%41)
+			if usedR[nm] {
+				continue
+			}
+			usedR[nm] = true
+			td.Rels = append(td.Rels, Relation{Name: nm, Rw: &Rewrite{Kind: This}, Restr: []Restriction{{Type: td.Name}}})
+		}
+	case "types":
+		pf := rapid.SampledFrom([]string{"a", "m", "zz", "A"}).Draw(t, "scaleTypePrefix")
+		for i := 0; i < n; i++ {
+			nm := fmt.Sprintf("%s%02d", pf, (i*7)%41)
+			if usedT[nm] {
+				continue
+			}
+			usedT[nm] = true
+			td := TypeDef{Name: nm}
+			if i%2 == 0 {
+				td.Rels = []Relation{{Name: "r", Rw: &Rewrite{Kind: This}, Restr: []Restriction{{Type: nm}}}}
+			}
+			m.Types = append(m.Types, td)
+		}
+	case "restrictions":
+		_, r := pickRel()
+		if r.Rw.CountThis() == 0 {
+			if jsonOnly || r.Rw.Kind == Difference || !(r.Rw.Kind == Union || r.Rw.Kind == Intersection) {
+				r.Rw = &Rewrite{Kind: Union, Kids: []*Rewrite{{Kind: This}, r.Rw}}
+			} else {
+				r.Rw.Kids = append([]*Rewrite{{Kind: This}}, r.Rw.Kids...)
+			}
+		}
+		for i := 0; i < n; i++ {
+			x := Restriction{Type: fmt.Sprintf("u%02d", i)}
+			switch i % 4 {
+			case 1:
+				x.Wild = true
+			case 2:
+				x.Rel = "member"
+			case 3:
+				if len(m.Conds) > 0 {
+					x.Cond = m.Conds[i%len(m.Conds)].Name
+				}
+			}
+			r.Restr = append(r.Restr, x)
+		}
+	case "conditions":
+		have := map[string]bool{}
+		for _, c := range m.Conds {
+			have[c.Name] = true
+		}
+		for i := 0; i < n; i++ {
+			nm := fmt.Sprintf("cond_%02d", (i*7)%41)
+			if have[nm] {
+				continue
+			}
+			have[nm] = true
+			m.Conds = append(m.Conds, Condition{Name: nm, Params: []Param{{Name: "x", Type: ParamScalars[i%len(ParamScalars)]}}, Expr: "x == x"})
+		}
+	case "params":
+		if len(m.Conds) == 0 {
+			m.Conds = append(m.Conds, Condition{Name: "scaled_cond", Params: []Param{{Name: "x", Type: "int"}}, Expr: "x > 1"})
+		}
+		c := &m.Conds[rapid.IntRange(0, len(m.Conds)-1).Draw(t, "scaleCond")]
+		have := map[string]bool{}
+		for _, p := range c.Params {
+			have[p.Name] = true
+		}
+		for i := 0; i < n; i++ {
+			nm := fmt.Sprintf("p%02d", (i*7)%41)
+			if have[nm] {
+				continue
+			}
+			have[nm] = true
+			p := Param{Name: nm, Type: ParamScalars[i%len(ParamScalars)]}
+			if i%5 == 4 {
+				p = Param{Name: nm, Type: []string{"list", "map"}[i%2], Elem: ParamScalars[i%len(ParamScalars)]}
+			}
+			c.Params = append(c.Params, p)
+		}
+	case "expr":
+		if len(m.Conds) == 0 {
+			m.Conds = append(m.Conds, Condition{Name: "scaled_cond", Params: []Param{{Name: "x", Type: "int"}}, Expr: "x > 1"})
+		}
+		c := &m.Conds[rapid.IntRange(0, len(m.Conds)-1).Draw(t, "scaleCond")]
+		p := c.Params[0].Name
+		var b []byte
+		brace := -1
+		if rapid.Bool().Draw(t, "scaleExprBrace") {
+			brace = rapid.IntRange(0, n-1).Draw(t, "scaleExprBraceAt")
+		}
+		for i := 0; i < n; i++ {
+			if i > 0 {
+				b = append(b, " && "...)
+			}
+			b = append(b, fmt.Sprintf("%s < %d", p, i)...)
+			if i == brace {
+				b = append(b, " || {"+p...)
+			}
+		}
+		c.Expr = string(b)
+	case "name-length":
+		ln := rapid.SampledFrom([]int{50, 51, 63, 64, 65, 127, 128, 129, 254, 255, 256}).Draw(t, "scaleNameLen")
+		td, r := pickRel()
+		long := func(first byte) string {
+			b := make([]byte, ln)
+			for i := range b {
+				b[i] = "abcdefghij_0123456789"[i%21]
+			}
+			b[0] = first
+			return string(b)
+		}
+		oldT, newT := td.Name, long('t')
+		oldR, newR := r.Name, long('r')
+		if usedT[newT] {
+			return dim
+		}
+		for ti := range m.Types {
+			x := &m.Types[ti]
+			if x.Name == oldT {
+				x.Name = newT
+			}
+			for ri := range x.Rels {
+				rr := &x.Rels[ri]
+				if rr.Name == oldR {
+					rr.Name = newR
+				}
+				for k := range rr.Restr {
+					if rr.Restr[k].Type == oldT {
+						rr.Restr[k].Type = newT
+					}
+					if rr.Restr[k].Rel == oldR {
+						rr.Restr[k].Rel = newR
+					}
+				}
+				rr.Rw.Walk(func(w *Rewrite, _ int) {
+					if w.Rel == oldR {
+						w.Rel = newR
+					}
+					if w.Tupleset == oldR {
+						w.Tupleset = newR
+					}
+				})
+			}
+		}
+	}
+	return dim
+}
